@@ -132,6 +132,14 @@ def judge_c05(obs: L.Obs) -> list[tuple[str, str]]:
                 out.append((f"C05/skip/{b.replace(' ', '')}", f"connection {v.idx}: illegal transition {b}"))
     for b in obs.invariant_breaks[:2]:
         out.append(("C05/is_connected-mismatch", b))
+    # a fatal error that was reported to the connection has taken effect when the report returns: the state is CLOSED (jump from any state)
+    for v in obs.conns:
+        for seq_, t_, st_, raised_ in v.fatal_returns:
+            _stat(f"c05/state-after-fatal-report/{st_}")
+            if st_ != "CLOSED":
+                out.append((f"C05/fatal-error-without-effect/{st_}", f"connection {v.idx}: report_fatal_error returned at t={t_:.6f} with the connection still {st_} "
+                            f"(cause {cause_tag(obs)})"))
+                break
     for c in obs.calls:
         if c.outcome == "ok" and c.name in ("start", "finish", "connect") and obs.conns:
             # the connection this call worked on: the one it created (start/connect) or the newest one existing when it was entered (finish)
@@ -370,7 +378,27 @@ def judge_c09(obs: L.Obs) -> list[tuple[str, str]]:
     return out
 
 
-JUDGES: dict[str, Judge] = {"C05": judge_c05, "C07": judge_c07, "C08": judge_c08, "C09": judge_c09}
+def judge_c11(obs: L.Obs) -> list[tuple[str, str]]:
+    """Request-response calls (hello / login / device_info / list_entities / the DisconnectRequest of disconnect()) outstanding when the
+    link is lost: each fails with the connection's error in that very instant -- none stays pending on a connection whose transport is gone."""
+    from aioesphomeapi.core import APIConnectionError
+
+    out = []
+    for e in obs.lost_events:
+        _stat(f"c11/transport-lost/state-at-end-of-instant={e['state']}/calls-still-pending={len(e['pending_calls'])}")
+        if e["pending_calls"]:
+            out.append((f"C11/call-outlives-connection/{e['pending_calls'][0][0]}", f"transport lost at t={e['t']:.6f} but {[n for n, _ in e['pending_calls']]} (entered before the loss) "
+                        f"still pending at the end of that instant; connection state {e['state']} (cause {cause_tag(obs)})"))
+    lost_t = [e["t"] for e in obs.lost_events]
+    for c in obs.calls:
+        if c.done and c.outcome == "raised" and lost_t and c.t_call is not None and c.t_call < lost_t[0] <= (c.t_ret or 0) + 1e-9:
+            _stat(f"c11/call-ended-by-loss/{c.name}/{type(c.exc).__name__}")
+            if not isinstance(c.exc, APIConnectionError):
+                out.append((f"C11/raw-error-at-connection-loss/{c.name}", f"{c.name} ended with {c.exc!r} when the link was lost"))
+    return out
+
+
+JUDGES: dict[str, Judge] = {"C05": judge_c05, "C07": judge_c07, "C08": judge_c08, "C09": judge_c09, "C11": judge_c11}
 
 
 # ---------------------------------------------------------------------------------------------- sweep driver
